@@ -179,6 +179,8 @@ M = [
   "            self.bytes.try_reserve(size)?;\n            let handle = tracker.alloc::<u8>(size)?;\n            self.handle = Some(handle);"),
  ("c13_try_reserve_result_dropped", "C13", "result-discarded:try_reserve", "crates/jxl-frame/src/lib.rs",
   "            self.bytes.try_reserve(additional)?;", "            let _ = self.bytes.try_reserve(additional);"),
+ ("c10_header_size_unchecked", "C10", "header-size-checked_sub", "crates/jxl-bitstream/src/container/box_header.rs",
+  "                let xlbox = xlbox.checked_sub(16).ok_or(Error::InvalidBox)?;", "                let xlbox = xlbox.wrapping_sub(16);"),
  ("c01_cluster_map_decoder_two_dists", "C01", "bound-lost", "crates/jxl-coding/src/lib.rs",
   "            Decoder::parse(bitstream, 1)?\n        };\n        decoder.begin(bitstream)?;", "            Decoder::parse(bitstream, num_dist.min(2))?\n        };\n        decoder.begin(bitstream)?;"),
 ]
@@ -213,7 +215,7 @@ def main():
                    "D34": ("C01", "D34"), "D35": ("C01", "D35"), "D36": ("C04", "exit-without-finalize"), "D37": ("C03", "plain-sub"),
                    "D38": ("C01", "try_compile_to_table|arith"), "D39": ("C03", "D39"), "D40": ("C01", "patch|arith:patch_ref"), "D42": ("C06", "D42"), "D44": ("C12", "i16-saturating"),
                    "D43": ("C05", "alpha-region-ignored"), "D45": ("C06", "D45"), "D46": ("C06", "D46"), "D47": ("C06", "base-region-unchecked"), "D48": ("C05", "patch|alpha-region-ignored"),
-                   "D49": ("C01", "render_loading_frame|index:FrameHeader.lf_level"), "D50": ("C17", "D50"), "D51": ("C01", "suggested_hdr_tf<-jxl_render::RenderContext::embedded_icc"), "D52": ("C01", "parse_icc_raw|arith:tag_count")}
+                   "D49": ("C01", "render_loading_frame|index:FrameHeader.lf_level"), "D50": ("C17", "D50"), "D51": ("C01", "suggested_hdr_tf<-jxl_render::RenderContext::embedded_icc"), "D52": ("C01", "parse_icc_raw|arith:tag_count"), "D53": ("C03", "fast-path-ignores-nb_deltas")}
         for d, (prop, key) in sorted(REVERTS.items()):
             if os.path.exists(os.path.join(V, "mutants", "reverts", "revert_%s.patch" % d)):
                 idx.append({"name": "reverts/revert_%s" % d, "property": prop, "expect": key})
